@@ -27,9 +27,9 @@ REQUIRED_REACH = ["_ensemble.py:EnsembleForecaster._predict", "_pipeline.py:Tran
                   "_pipeline.py:TransformedTargetForecaster._predict", "_pipeline.py:TransformedTargetForecaster.update",
                   "_multiplexer.py:MultiplexForecaster._set_forecaster", "_stack.py:StackingForecaster.fit",
                   "_meta.py:_HeterogenousEnsembleForecaster._fit_forecasters"]
-REQUIRED_MONITORS = ["multiplex.delegation", "pipe.fit-levels", "pipe.inverse-chain", "pipe.update-levels", "stack.holdout", "stack.members-unseen",
+REQUIRED_MONITORS = ["multiplex.delegation", "online.weights", "pipe.fit-levels", "pipe.inverse-chain", "pipe.update-levels", "stack.holdout", "stack.members-unseen",
                      "ref.fit-predict", "ref.after-update", "members.cloned"]
-NOT_COVERED = ["OnlineEnsembleForecaster's weighting algorithms (only uniform weights are compared with the mean of the members)",
+NOT_COVERED = ["the weight update rules of OnlineEnsembleForecaster.s algorithms themselves (the forecast is compared with the members combined under the weights the algorithm holds)",
                "exogenous data inside composites"]
 ASSUMPTIONS = ["leaf forecasters and transformers are taken as given (C05/C11/C13/C14 decide them)"]
 JOBS = {"quick": 8, "thorough": 16}
@@ -59,6 +59,12 @@ def cases(tier, seed):
                "n": int(rng.integers(24, 50)), "off": int(rng.choice([0, 10, -9, 500])), "fh": FHS[int(rng.integers(0, len(FHS)))],
                "updates": [[bool(rng.random() < 0.5), int(rng.integers(1, 4))] for _ in range(int(rng.integers(0, 3)))],
                "alpha": [0.05, 0.2, 0.5, [0.05, 0.2], 0.01][int(rng.integers(0, 5))], "dseed": int(rng.integers(0, 2 ** 31))}
+    for i in range(n_stack):
+        k = int(rng.integers(2, 4))
+        yield {"kind": "online-algo", "algo": ["nnls", "normalhedge"][i % 2], "members": [MUX_MEMBERS[int(rng.integers(0, 4))] for _ in range(k)],
+               "n": int(rng.integers(20, 40)), "off": int(rng.choice([0, 10, 500])), "fh": FHS[int(rng.integers(0, len(FHS)))],
+               "ops": [["update", "update", "predict", "refit", "update_predict"][int(rng.integers(0, 5))] for _ in range(int(rng.integers(2, 7)))],
+               "dseed": int(rng.integers(0, 2 ** 31))}
     for i in range(n_ref):
         spec = None
         for _ in range(20):
@@ -85,6 +91,8 @@ def run_case(case, ctx):
         return _run_stack_spy(case, ctx)
     if case["kind"] == "mux":
         return _run_mux(case, ctx)
+    if case["kind"] == "online-algo":
+        return _run_online(case, ctx)
     return _run_ref(case, ctx)
 
 
@@ -111,6 +119,78 @@ def _flat(o):
     if isinstance(o, (float, np.floating)):
         return round(float(o), 9)
     return repr(type(o).__name__)
+
+
+def _run_online(case, ctx):
+    """online ensemble with a weighting algorithm: whatever the history (updates, rolling evaluation, fitting again), a forecast is the
+    members' forecasts combined with the weights the algorithm object holds at that moment"""
+    from sktime.forecasting.online_learning import NNLSEnsemble, NormalHedgeEnsemble, OnlineEnsembleForecaster
+    from sktime.forecasting.model_selection import SlidingWindowSplitter
+    rng = np.random.default_rng([case["dseed"], 910])
+    k = len(case["members"])
+    from sklearn.metrics import mean_squared_error
+    algo = {"nnls": lambda: NNLSEnsemble(n_estimators=k), "normalhedge": lambda: NormalHedgeEnsemble(n_estimators=k, loss_func=mean_squared_error)}[case["algo"]]
+    try:
+        alg = algo()
+    except Exception as e:  # noqa
+        ctx.tag("online-algo:algorithm-not-constructible:%s:%s" % (case["algo"], type(e).__name__))
+        return
+    n, off, fh = case["n"], case["off"], case["fh"]
+    total = n + 6 * len(case["ops"]) + 4
+    full = zoo.make_series(rng, total, positive=True, off=off, kind="seasonal")
+    f = OnlineEnsembleForecaster([("f%d" % i, zoo.build(s_)) for i, s_ in enumerate(case["members"])], ensemble_algorithm=alg)
+    ok, _ = ctx.call("online:fit-exception", f.fit, full.iloc[:n].copy(), fh=fh)
+    if not ok:
+        return
+    pos = n
+
+    def check(where):
+        ok, p = ctx.call("online:predict-exception", f.predict, fh)
+        if not ok:
+            return
+        w = np.asarray(f.ensemble_algorithm.weights, dtype=float)
+        parts = np.column_stack([np.asarray(m.predict(fh), dtype=float) for m in f.forecasters_])
+        exp = parts @ w
+        ctx.check("online.weights", _same(p.values, exp, 1e-9), "online:forecast-not-members-combined-with-the-algorithm's-current-weights",
+                  "the online ensemble's forecast is not its members' forecasts combined with the weights its algorithm holds", where=where, algorithm=case["algo"],
+                  weights=w.tolist(), got=p.values.tolist(), expected=exp.tolist())
+    import traceback
+
+    def call(key, fn, *a, **k):
+        """like ctx.call, but a failure inside the weighting algorithm itself (numerical breakdown of the hedge solver) only ends the case"""
+        try:
+            return True, fn(*a, **k)
+        except Exception as e:  # noqa
+            if any("_prediction_weighted_ensembler" in fr.filename for fr in traceback.extract_tb(e.__traceback__)):
+                ctx.tag("online-algo:algorithm-failed:%s:%s" % (case["algo"], type(e).__name__))
+                return False, None
+            return ctx.call(key, fn, *a, **k)
+    check("after fit")
+    for j, op in enumerate(case["ops"]):
+        if op == "update":
+            size = 1 + (case["dseed"] + j) % 3
+            ok, _ = call("online:update-exception", f.update, full.iloc[pos:pos + size].copy())
+            pos += size
+            if not ok:
+                return
+        elif op == "update_predict":
+            seg = full.iloc[pos:pos + 5]
+            ok, _ = call("online:update_predict-exception", f.update_predict, seg.copy(), cv=SlidingWindowSplitter(fh=1, window_length=1))
+            if not ok:
+                return
+            # (the rolling run leaves evaluated data behind, see the C10 finding; continue after them)
+            ok, _ = call("online:update-exception", f.update, seg.copy())
+            pos += 5
+            if not ok:
+                return
+        elif op == "refit":
+            ok, _ = ctx.call("online:fit-exception", f.fit, full.iloc[:pos].copy(), fh=fh)
+            if not ok:
+                return
+        check("after %s #%d" % (op, j))
+    ctx.event(kind="online-algo", algo=case["algo"], ops=case["ops"], weights=np.asarray(f.ensemble_algorithm.weights, dtype=float).round(4).tolist())
+    ctx.tag("online-algo:" + case["algo"])
+    ctx.nontrivial = True
 
 
 def _run_mux(case, ctx):
